@@ -530,6 +530,13 @@ def process_fn(repo, glob, fs, log):
             continue
         if kw == "opaque":
             continue
+        elif kw == "loopend":
+            # ghost text inserted at the very end of the n-th loop's body (E13)
+            n_ = int(rest.split()[0])
+            if n_ < 1 or n_ > len(loops):
+                raise VxError(f"lost anchor: {fs.name}: loop #{n_} not found ({len(loops)} loops in body)")
+            at = toks[loops[n_ - 1]["close"]].start
+            ed.add(at, at, "\n" + "\n".join(payload) + "\n", "E13", f"loop end #{n_}")
         elif kw == "loop":
             loop_spec[int(rest.split()[0])] = "\n".join(payload)
         elif kw == "for":
